@@ -111,8 +111,13 @@ class SchedRun:
         for k in range(self.n):
             if not self.burst[k]:
                 yield env.timeout(sym_num('g%d' % k, self.sort, 0))
+                if k in (self.cfg.get('split_gap') or []):
+                    # a second sleep, scheduled only now: at an instant it shares with a transmission end it wakes up after the
+                    # packet has been delivered (the first sleep was scheduled before that transmission began and wakes up before)
+                    yield env.timeout(sym_num('h%d' % k, self.sort, 0))
                 group += 1
-            size = sym_int('s%d' % k, self.cfg.get('smin', 1), self.cfg.get('smax'))
+            fixed = (self.cfg.get('sizes') or {}).get(str(k))
+            size = fixed if fixed is not None else sym_int('s%d' % k, self.cfg.get('smin', 1), self.cfg.get('smax'))
             # 'ctime': the creation-time field need not follow the arrival order (packets may have travelled differently)
             ctime = env.now if not self.cfg.get('ctime') else 1000 - k
             # a fresh int object per packet (ids parsed from a trace are equal, not identical; CPython caches only small ints)
